@@ -1,7 +1,7 @@
 #!/bin/sh
 # Runs the pinned test suite of /repo (guard off) and checks that every test of BASELINE.stable_pass passes.
 out=$(mktemp -d)
-cd /repo && env -u HUGR_PY_VERIF /venv/bin/python -m pytest -ra -q -p no:cacheprovider --timeout=900 --continue-on-collection-errors --junitxml=$out/j.xml >$out/log 2>&1
+cd "${1:-/repo}" && env -u HUGR_PY_VERIF /venv/bin/python -m pytest -ra -q -p no:cacheprovider --timeout=900 --continue-on-collection-errors --junitxml=$out/j.xml >$out/log 2>&1
 python3 - "$out/j.xml" <<'PY'
 import json, sys, xml.etree.ElementTree as ET
 base = json.load(open('/root/.vp/BASELINE.json'))
